@@ -128,6 +128,12 @@ def cross(ck, q, *names):
             book_gen(ck, "x_big_clock", Ops=["cap", "cancel", "modify"], Prices=[10, 11, 12], Vols=[1, 2], Kinds=["L", "M"], ModPrices=[-1, 11],
                      ModVols=["none", "smaller"], MaxOrders=3 if q else 4, MaxOps=4 if q else 5, time_scale=1 << 33, time_offset=1700000000000000000,
                      need=("has_trade", "sweep_two_levels", "op_modify"), timeout=300 if q else 1500)
+        elif nm == "long_queue":
+            # a touch level that holds ten orders (a size-dependent matching path would be taken), swept exactly by the drain probe's
+            # market order for the whole resting volume; both sides
+            for side in ("B", "A"):
+                book_gen(ck, "x_long_queue_" + side, Ops=["cap"], Sides=[side], Prices=[10], Vols=[1, 2], Kinds=["L"], MaxOrders=10, MaxOps=10,
+                         need=(), timeout=300)
         elif nm == "big_volumes":
             # large-volume regime (DESIGN.md 3.6): one specification unit of volume is 1.3 * 10^9 in the real book, so single volumes
             # and volume changes exceed 2^31 while per-side totals and the traded volume stay below 2^32 (VolCap = 3 units)
@@ -197,7 +203,7 @@ def c01(tier, seed):
     book_gen(ck, "gen_split_api", Ops=["create", "place", "cancel", "event", "settime"], Dts=[0, 1], Tick=3, NLevels=2,
              Prices=[9, 12], Vols=[1, 2] if q else [1, 2, 3], Kinds=["L", "M"], MaxOrders=2 if q else 3, MaxOps=4 if q else 5,
              need=("has_trade", "unplaced_order"), timeout=300 if q else 1500)
-    cross(ck, q, "ties", "ties_deep", "split_modify", "big_volumes", "top_price", "big_clock")
+    cross(ck, q, "ties", "ties_deep", "split_modify", "big_volumes", "top_price", "big_clock", "long_queue")
     # long random histories over wide alphabets, recorded from the real code and validated by TLC
     ck.traces_stage("rand", "record_book", {"discipline": True}, files=8 if q else 64, runs=2 if q else 4, ops=300)
     # the same without the clock discipline: half of the queue insertions tie
@@ -266,7 +272,7 @@ def c03(tier, seed):
     book_gen(ck, "gen_ledger", cfg=GEN, Ops=["cap", "cancel", "modify", "resettv"], Prices=[10, 11], Vols=[1, 3],
              ModPrices=[-1, 10, 11], ModVols=["smaller", "larger"], MaxOrders=3, MaxOps=4 if q else 5,
              need=("has_trade", "multi_trade", "op_resettv", "op_modify"), timeout=300 if q else 1500)
-    cross(ck, q, "reload_resettv", "ties", "off_modify", "big_volumes", "big_clock")
+    cross(ck, q, "reload_resettv", "ties", "off_modify", "big_volumes", "big_clock", "long_queue")
     prof = {"discipline": True, "audit_every": 10, "w": {"toggle": 0.5, "resettv": 1.5, "modify": 5, "reload": 0.5}}
     ck.traces_stage("rand_ledger", "record_book", prof, files=8 if q else 64, runs=2 if q else 4, ops=300)
     python_view(ck, q)
@@ -964,6 +970,9 @@ def c16(tier, seed):
     sim_outcomes(ck, "sim_outcomes_market", seeds=n, Assets=2, Asset=1, Tick=2, T0=7, StepSize=3, VolHi=3, TickLo=5, TickHi=7)
     sim_outcomes(ck, "sim_outcomes_always_active", seeds=n, NAgents=3, Rate="one")
     sim_outcomes(ck, "sim_outcomes_never_active", seeds=200, NAgents=3, Rate="zero", NSteps=3)
+    # a tick range that starts at 0: a sell at price 0 is executed like a market order (its remainder is cancelled at once), so the
+    # agent then remembers an order that is not active and must place a new one
+    sim_outcomes(ck, "sim_outcomes_price_zero", seeds=n, NAgents=2, Rate="one", TickLo=0, TickHi=2, NSteps=3)
     if not q:
         sim_outcomes(ck, "sim_outcomes_three_rounds", seeds=n, NSteps=3, timeout=1800)
     return ck.finish("model_checking", LEVEL_TEXT, AGENT_RULE + "update calls that queued at least one instruction",
